@@ -7,13 +7,24 @@
 EXTENDS BodyLimitConn, Json
 Levels == 1..NL
 Confs == 0..NL
-Req(c, sz, k) == [conf |-> c, size |-> sz, kind |-> k]
+Req(c, sz, k) == [conf |-> c, size |-> sz, kind |-> k, expect |-> "none"]
+ReqE(c, sz, k, e) == [conf |-> c, size |-> sz, kind |-> k, expect |-> e]
+Expects == {"none", "wait", "nowait"}   \* Expect: 100-continue absent / client waits for the 100 / does not wait
 Sizes == { <<l, p>> : l \in 0..NL, p \in {0, 1} }
 Kinds == {"fixed", "chunked"}
 Filler(s, c) == Req(c, <<Eff(s, c), 0>>, "fixed")
 Lasts == { Req(c, sz, k) : c \in Confs, sz \in Sizes, k \in Kinds }
+\* server without a configured limit: bodies around the default limit DL, every Expect mode,
+\* alone or after a small request with or without a per-request config
+DefaultLasts == { ReqE(c, sz, k, e) : c \in {0, 1}, sz \in { <<1, 0>>, <<DL, 0>>, <<DL, 1>> }, k \in Kinds, e \in Expects }
+DefaultHistories ==
+       { [s |-> 0, reqs |-> <<l>>] : l \in DefaultLasts }
+  \cup { [s |-> 0, reqs |-> <<Req(a, <<1, 0>>, "fixed"), l>>] : a \in {0, 1}, l \in DefaultLasts }
+\* the Expect modes on a configured server
+ExpectHistories == { [s |-> s, reqs |-> <<ReqE(c, sz, k, e)>>] : s \in Levels, c \in Confs, sz \in Sizes, k \in Kinds, e \in {"wait", "nowait"} }
 AllHistories ==
-       { [s |-> s, reqs |-> <<l>>] : s \in Levels, l \in Lasts }
+       DefaultHistories \cup ExpectHistories
+  \cup { [s |-> s, reqs |-> <<l>>] : s \in Levels, l \in Lasts }
   \cup { [s |-> s, reqs |-> <<Filler(s, a), l>>] : s \in Levels, a \in Confs, l \in Lasts }
   \cup { [s |-> s, reqs |-> <<Filler(s, a), Filler(s, b), l>>] : s \in Levels, a \in Confs, b \in Confs, l \in Lasts }
 ASSUME ndJsonSerialize("vectors.ndjson",
